@@ -31,6 +31,35 @@ def _tol_value(after_root, a, fresh, ra, rb, side=None):
     return tol, None
 
 
+def near_discontinuity(tree, a):
+    """sgn is discontinuous at 0: when the argument of some sgn node is zero up to rounding (|value| <= 1e-9 x the largest
+    magnitude inside that argument), a one-ulp difference in a folded constant or in a float power legitimately flips
+    the value of the whole expression. Such points are skipped (and counted) whenever rounding is in play."""
+    for n in A.preorder(tree):
+        if A.kind(n) != "SgnExpression":
+            continue
+        child = n.left if n.left is not None else n.right
+        if child is None:
+            continue
+        try:
+            r = X.try_eval(child, a)
+        except (X.NonFinite, X.Malformed):
+            return True
+        if r is None or r.is_eq:
+            continue
+        scale = Fraction(1)
+        for m in A.preorder(child):
+            try:
+                rm = X.try_eval(m, a)
+            except (X.NonFinite, X.Malformed):
+                rm = None
+            if rm is not None and not rm.is_eq and abs(rm.value) > scale:
+                scale = abs(rm.value)
+        if abs(r.value) * 10**9 <= scale:
+            return True
+    return False
+
+
 def compare_expressions(ctx, before, after, fresh, assignments, sides=None):
     """Value preservation at the given assignments.
     sides: None for plain expressions; for equations a list of (before_side, after_side) index
@@ -106,6 +135,9 @@ def compare_expressions(ctx, before, after, fresh, assignments, sides=None):
             if abs(va - vb) <= tol:
                 compared += 1
                 rounded += 1
+                continue
+            if (fresh or ra.inexact or rb.inexact) and (near_discontinuity(before, a) or near_discontinuity(after, a)):
+                ctx.count("assignments_skipped_sgn-argument-zero-up-to-rounding")
                 continue
             return "mismatch", {
                 "assignment": G.show_assignment(a),
@@ -267,6 +299,9 @@ def compare_equations(ctx, before, after, fresh, assignments, planted=None, bala
         tol = X.fold_tolerance(after, a, fresh, c) if fresh else Fraction(0)
         if tol is None:
             ctx.count("points_skipped_tolerance-undefined")
+            continue
+        if fresh and (near_discontinuity(before, a) or near_discontinuity(after, a)):
+            ctx.count("points_skipped_sgn-argument-zero-up-to-rounding")
             continue
         if origin.startswith("solved-after"):
             # a is an exact solution of the REWRITTEN equation; the original's residual there may differ from the
